@@ -1,5 +1,5 @@
 """C09: SER-PRIM, SER-NZ, SER-MK, SER-SYM, SER-THREAD, SER-VEC, SER-TOP (DESIGN §3/C09)."""
-from . import core, loops
+from . import core, loops, cond
 from .core import Callee, walk, show
 from .view import FnView, pnorm, OPTION
 from .pat import m, ANY, V, K, Par, C, F, E, P, B, Phi, OneOf, members, It
@@ -179,18 +179,17 @@ def _mk(ctx, lib, sty, bodies):
     if not to_u8 or not from_u8:
         ctx.missing("SER-MK", "From<MatchKind> for u8 / From<u8> for MatchKind")
         return
-    t1 = _switch_table(lib, to_u8)      # discriminant -> byte
-    t2 = _switch_table(lib, from_u8)    # byte -> variant name
-    if t1 is None or t2 is None:
-        ctx.bad("SER-MK", to_u8, "tables", to_u8.span, "could not extract the MatchKind conversion tables")
+    # the two conversion tables, by constant folding each function on every abstract input (3 variants / 256 bytes):
+    # independent of the source form (match, if-chain, `as u8` on the repr(u8) enum, lookup by comparison)
+    enc = {name: cond.fold_fn(to_u8, ("variant", name, d)) for name, d in variants.items()}
+    dec = {byte: cond.fold_fn(from_u8, byte) for byte in range(256)}
+    if any(not isinstance(x, int) for x in enc.values()) or any(not (isinstance(x, tuple) and x[0] == "variant") for x in dec.values()):
+        ctx.bad("SER-MK", to_u8, "tables", to_u8.span, "could not extract the MatchKind conversion tables (to_u8 %s)" % enc)
         return
-    enc = {}
-    for name, d in variants.items():
-        enc[name] = t1.get(d, t1.get("otherwise"))
-    ctx.check(len(set(enc.values())) == len(enc) and None not in enc.values(), "SER-MK", to_u8, "to_u8-injective", to_u8.span,
+    ctx.check(len(set(enc.values())) == len(enc), "SER-MK", to_u8, "to_u8-injective", to_u8.span,
               "MatchKind -> u8 must be injective; table %s" % enc)
     for name, byte in enc.items():
-        back = t2.get(byte, t2.get("otherwise"))
+        back = dec[byte][1]
         ctx.check(back == name, "SER-MK", from_u8, "roundtrip:" + name, from_u8.span,
                   "from_u8(to_u8(%s)) must be %s; to_u8 gives %s, from_u8 gives %s" % (name, name, byte, back))
     # writer pushes exactly u8::from(*self); reader consumes src[0], returns src[1..]
